@@ -7,12 +7,12 @@ BlockSize == 200
 VARIABLES k
 NBlocks == (Len(Trace) + BlockSize - 1) \div BlockSize
 Judge(n) == IF SpaceEventOK(Trace[n]) THEN TRUE ELSE PrintT(ToJson([reject |-> n]))
-Init == k = 0
+Init == k = 0 /\ TabsInit
 Next == \/ /\ k = 0
            /\ \E b \in 0..(NBlocks - 1) : k' = b * BlockSize + 1
            /\ Judge(k')
         \/ /\ k > 0 /\ k < Len(Trace) /\ k % BlockSize # 0
            /\ k' = k + 1
            /\ Judge(k')
-Spec == Init /\ [][Next]_k
+Spec == Init /\ [][Next /\ UNCHANGED tabs]_<<k, tabs>>
 =============================================================================
